@@ -290,6 +290,11 @@ func IsOpen(sig string) bool {
 	return OpenFinding(st.Meta.Property, sig) != nil
 }
 
+// Stdout is the process's standard output as it was at start-up. KNOWN-FINDING lines are
+// written to it, so a harness that points os.Stdout elsewhere to silence the tested code's
+// chatter cannot swallow them.
+var Stdout = os.Stdout
+
 // KnownHit records that a listed open finding was observed (prints the KNOWN-FINDING
 // line once per process; the driver de-duplicates across shards).
 func KnownHit(f *Finding) {
@@ -298,7 +303,7 @@ func KnownHit(f *Finding) {
 	st.Known[f.ID]++
 	st.mu.Unlock()
 	if first {
-		fmt.Printf("KNOWN-FINDING: property=%s %s [%s]\n", f.Property, f.What, f.ID)
+		fmt.Fprintf(Stdout, "KNOWN-FINDING: property=%s %s [%s]\n", f.Property, f.What, f.ID)
 	}
 }
 
@@ -353,7 +358,7 @@ func Discrepancy(t TB, c interface{}, sig string, format string, args ...any) bo
 			if len(cb) > 1500 {
 				cb = cb[:1500]
 			}
-			fmt.Printf("SURVEY sig=%s :: %s :: CASE %s\n", sig, strings.SplitN(msg, "\n", 2)[0], cb)
+			fmt.Fprintf(Stdout, "SURVEY sig=%s :: %s :: CASE %s\n", sig, strings.SplitN(msg, "\n", 2)[0], cb)
 		}
 		return false
 	}
